@@ -218,28 +218,75 @@ def rule_F3(ctx, R):
     return res
 
 
+def handler_context(p, idx):
+    """Is event `idx` of path `p` executed by an unwind handler (after a CAUGHT that has not yet been RESUMEd)?
+    Returns (in_handler, events of the try body whose unwinding is being handled)."""
+    evs = p.events
+    depth = 0
+    caught = None
+    for j in range(idx - 1, -1, -1):
+        k = evs[j]["k"]
+        if k == "RESUME":
+            depth += 1
+        elif k == "CAUGHT":
+            if depth == 0:
+                caught = j
+                break
+            depth -= 1
+    if caught is None:
+        return False, []
+    # the matching CATCH_BEGIN: skip completed (CATCH_END) and handled (CAUGHT) inner tries
+    nest = 0
+    for j in range(caught - 1, -1, -1):
+        k = evs[j]["k"]
+        if k in ("CATCH_END", "CAUGHT"):
+            nest += 1
+        elif k == "CATCH_BEGIN":
+            if nest == 0:
+                return True, evs[j + 1:caught]
+            nest -= 1
+    return True, evs[:caught]
+
+
+def _entry_paths(ctx):
+    from rules_ts import entry_fns
+    for f in entry_fns(ctx):
+        paths, err, I = ctx.paths(f)
+        if err or not paths:
+            continue
+        yield f, paths
+
+
 def rule_F4(ctx, R):
     res = RuleResult("F4", "who may poison: PoisonFlag::poison is called only from a Drop impl, from an unwind handler (2nd closure of "
                            "handle_unwind) or from a RawLock::poison impl; clear_poison stores false, is_poisoned only loads")
     F = ctx.F
-    # handler closures: second closure argument of handle_unwind calls
-    handlers = set()
-    for f, t in call_sites(ctx, lambda c: c["def"] == ctx.A.handle_unwind):
-        # find closure aggregates assigned to the 2nd argument local
-        a = t["args"]
-        if len(a) == 2 and a[1]["k"] in ("move", "copy"):
-            l = a[1]["place"]["l"]
-            for b in f["mir"]["blocks"]:
-                for s in b["stmts"]:
-                    if s["k"] == "assign" and s["dst"]["l"] == l and s["rv"]["k"] == "aggregate" and s["rv"].get("agg") == "closure":
-                        handlers.add(s["rv"]["id"])
-    for f, t in call_sites(ctx, lambda c: c["def"] == ctx.A.flag_fn.get("set")):
-        ti = f.get("trait_item") or ""
-        if f["id"] in handlers or ti == "std::ops::Drop::drop" or ti == "lockable::RawLock::poison":
-            res.ok("poison() in " + f["path"])
+    # every execution of the flag's set operation that an entry function can reach (helpers inlined): it must happen while an
+    # unwind is being handled (after handle_unwind caught it, before it is resumed), inside a Drop impl (F1 decides when), or in
+    # a RawLock::poison impl
+    seen = {}
+    for f, paths in _entry_paths(ctx):
+        for p in paths:
+            for e in p.ev("FLAG_SET"):
+                efn = (F.fn_by_path.get(e["fn"].split("::{closure")[0]) or [None])[0]
+                ti = (efn or {}).get("trait_item") or ""
+                rti = f.get("trait_item") or ""
+                inh, _ = handler_context(p, e["i"])
+                ok = inh or ti in ("std::ops::Drop::drop", "lockable::RawLock::poison") or rti in ("std::ops::Drop::drop", "lockable::RawLock::poison")
+                site = (f["path"], e.get("line"))
+                if site in seen:
+                    seen[site] = seen[site] and ok
+                else:
+                    seen[site] = ok
+                if not ok:
+                    seen[(f["path"], e.get("line"), "ev")] = (e, p)
+    for site, ok in sorted((k, v) for k, v in seen.items() if len(k) == 2):
+        if ok:
+            res.ok("poison() reached from %s (line %s)" % site)
         else:
-            res.bad(Violation("F4", ctx.F.top_fn(f)["path"], "poison-call", "PoisonFlag::poison called on a normal (non-unwinding) "
-                              "path in %s" % f["path"], f["span"]["file"], t.get("line")))
+            e, p = seen[(site[0], site[1], "ev")]
+            res.bad(Violation("F4", site[0], "poison-call", "PoisonFlag::poison is executed on a normal (non-unwinding) path of %s "
+                              "(path: %s)" % (site[0], p.trace()[:300]), e.get("file"), e.get("line")))
     # the flag primitives themselves
     import model
     I = ctx.M["make"]()
@@ -305,63 +352,45 @@ def rule_F4(ctx, R):
 
 
 def rule_F5(ctx, R):
-    res = RuleResult("F5", "plain locks are never killed by user panics: every RawLock::poison call sits in an unwind handler whose try "
-                           "closure contains no user-code call, or in a delegating poison impl")
+    res = RuleResult("F5", "plain locks are never killed by user panics: RawLock::poison (kill) is executed only while an unwind "
+                           "is being handled whose try body ran no user code, or by a delegating poison impl")
     F = ctx.F
-    cg = cg_of(ctx)
-    # map handler closure -> try closure
-    pairs = {}
-    for f, t in call_sites(ctx, lambda c: c["def"] == ctx.A.handle_unwind):
-        ids = []
-        for a in t["args"]:
-            cid = None
-            if a["k"] in ("move", "copy"):
-                for b in f["mir"]["blocks"]:
-                    for s in b["stmts"]:
-                        if s["k"] == "assign" and s["dst"]["l"] == a["place"]["l"] and s["rv"]["k"] == "aggregate" and s["rv"].get("agg") == "closure":
-                            cid = s["rv"]["id"]
-            ids.append(cid)
-        if len(ids) == 2 and ids[1]:
-            pairs[ids[1]] = ids[0]
-    # functions (transitively) containing a user call
-    from roles import FN_TRAITS
-    def has_user_call(fid, seen=None):
-        seen = seen if seen is not None else set()
-        if fid in seen or fid not in F.fn_by_id:
-            return False
-        seen.add(fid)
-        f = F.fn_by_id[fid]
-        if F.top_fn(f)["path"] == ctx.A.handle_unwind:
-            return False   # its F/G parameters are the caller's closures, reached through the closure edges
-        for b in f.get("mir", {}).get("blocks", []):
-            t = b["term"]
-            if t["k"] == "call" and t["callee"]["k"] == "fndef" and t["callee"].get("trait") in FN_TRAITS:
-                st = t["callee"].get("self_ty") or {}
-                if st.get("k") == "param":
-                    return True
-        return any(has_user_call(s, seen) for s in cg.succ.get(fid, ()))
-    for f, t in call_sites(ctx, lambda c: c.get("trait") == "lockable::RawLock" and c["name"] == "poison"):
-        ti = f.get("trait_item") or ""
-        if ti == "lockable::RawLock::poison":
-            res.ok("delegating poison impl " + f["path"])
+    import rules_alg
+    sites = {}
+
+    def judge(root, label, paths):
+        rti = root.get("trait_item") or ""
+        for p in paths:
+            for e in p.ev("KILL"):
+                key = (label, e["fn"].split("::{closure")[0], e.get("line"))
+                if rti == "lockable::RawLock::poison":
+                    sites.setdefault(key, (None, e, p))
+                    continue
+                inh, body = handler_context(p, e["i"])
+                bad = None
+                if not inh:
+                    bad = ("kill-outside-handler", "RawLock::poison (kill) is executed outside an unwind handler")
+                elif any(b["k"] == "USER" for b in body):
+                    bad = ("kill-on-user-panic", "a panic in user code kills the lock: the unwind being handled comes from a try body "
+                                                 "that calls user code")
+                if bad or key not in sites:
+                    sites[key] = (bad, e, p)
+
+    for f, paths in _entry_paths(ctx):
+        judge(f, f["path"], paths)
+    for f, label, kind, mode, pre in rules_alg.alg_functions(ctx):
+        paths, err = rules_alg.explore(ctx, f, 2, mode, kind, faults=1, preheld=pre,
+                                       loop_limit=(4 * (rules_alg.RETRIES + 1) if label.startswith("Retrying::raw_") and kind == "ACQ" else None))
+        if err:
+            res.undecided(f["path"], "analysis", err, *_floc(f))
             continue
-        # closures nested inside a handler count as the handler
-        g = f
-        hid = None
-        while g is not None:
-            if g["id"] in pairs:
-                hid = g["id"]
-                break
-            g = F.fn_by_id.get(g.get("parent")) if g["kind"] == "Closure" else None
-        if hid is None:
-            res.bad(Violation("F5", F.top_fn(f)["path"], "kill-outside-handler", "RawLock::poison (kill) called outside an unwind handler",
-                              f["span"]["file"], t.get("line")))
-        elif pairs[hid] and has_user_call(pairs[hid]):
-            res.bad(Violation("F5", F.top_fn(f)["path"], "kill-on-user-panic", "a panic in user code kills the lock: the handler of a "
-                              "handle_unwind whose try closure calls user code poisons the raw lock", f["span"]["file"], t.get("line")))
+        judge(f, f["path"], paths)
+    for key, (bad, e, p) in sorted(sites.items(), key=lambda kv: (kv[0][0], kv[0][1], kv[0][2] or 0)):
+        if bad:
+            res.bad(Violation("F5", key[0], bad[0], "%s (in %s; path: %s)" % (bad[1], key[1], p.trace()[:300]), e.get("file"), e.get("line")))
         else:
-            res.ok("kill in handler of " + F.top_fn(f)["path"])
-    res.need(9, "RawLock::poison call sites")
+            res.ok("kill in %s reached from %s" % (key[1], key[0]))
+    res.need(9, "RawLock::poison executions")
     return res
 
 
@@ -385,10 +414,9 @@ def rule_F6(ctx, R):
             if any(e["k"] == "UNWIND_AT" and e.get("what") == "user closure" for e in p.events):
                 if not p.ev("FLAG_SET"):
                     bad = True
-                    u = p.ev("USER")[0]
-                    owner = u["fn"].split("::{closure")[0]
+                    owner = f["path"]
         if bad:
-            # attribute to the function that contains the handler (the generic helper), one finding per helper
+            # attributed to the API function (the helper that contains the handler may be renamed, moved or inlined)
             res.bad(Violation("F6", owner, "no-poison-on-unwind", "a panic in the closure of an exclusive scoped call over a collection "
                               "leaves every contained Poisonable unpoisoned: the data view has no drop glue and the handler only releases "
                               "(reached from %s)" % f["path"], *_floc(f)), inst=f["path"])
@@ -402,7 +430,7 @@ def rule_F6(ctx, R):
             seen.add(v.key)
             uniq.append(v)
     res.violations = uniq
-    res.need(10, "exclusive scoped calls over generic lockables")
+    res.need(8, "exclusive scoped calls over generic lockables")
     return res
 
 
